@@ -103,10 +103,19 @@ class HDF5Cache(BaseFullCache):
             "hdf_file_path": self.__hdf_file.hdf_file_path,
             "hdf_node_path": self.__hdf_node_path,
             "name": self.name,
+            "last_accessed_index": self._last_accessed_index.value,
         }
 
     def __setstate__(self, state: StrKeyMapping) -> None:
+        state = dict(state)
+        last_accessed_index = state.pop("last_accessed_index", None)
         self.__class__.__init__(self, **state)
+        if (
+            last_accessed_index is not None
+            and last_accessed_index <= self._max_index.value
+        ):
+            # Restore the last accessed entry instead of the last stored one.
+            self._last_accessed_index.value = last_accessed_index
 
     def _copy_empty_cache(self) -> HDF5Cache:
         file_path = Path(self.__hdf_file.hdf_file_path)
